@@ -10,7 +10,7 @@ PTERA_DIR = os.path.dirname(os.path.abspath(ptera.__file__))
 # Full alphabet: every operator the lexer knows, brackets the tower knows but the
 # evaluator does not, one character outside the lexer, and one word of each operand kind.
 WORDS = ["f", "g", "x", "y", "*", "#value", "#foo", "@A", "1", "'s'", "n", "K.m", "f.nope", "nope", "lt", "0", "1.2.3", "7up", "-1-2",
-         "/nomod/f", "/os/nope", "/sys/f"]
+         "/nomod/f", "/os/nope", "/sys/f", "/.x/f"]
 OPS = [">", "(", ")", ",", "!", "!!", "as", ":", "=", "~", "$", "[", "]", ">>", "{", "}", "%", "[[", "]]"]
 FULL = WORDS + OPS
 CORE = ["f", "x", "#value", "@A", ">", "(", ")", ",", "!", "as", ":", "=", "$", "*"]
